@@ -34,13 +34,14 @@ VARIABLES blk,     \* block store: height of the last committed block
           pc,      \* control state
           pend,    \* block being committed / recovery cursor
           crashes, \* crashes so far
+          torn,    \* TRUE iff the crash left a partially written hash at the tail of merkle_tree.db
           act      \* last action (history; not in the VIEW)
-vars == <<blk, evt, st, mem, pc, pend, crashes, act>>
-view == <<blk, evt, st, mem, pc, pend, crashes>>
+vars == <<blk, evt, st, mem, pc, pend, crashes, torn, act>>
+view == <<blk, evt, st, mem, pc, pend, crashes, torn>>
 
 Down == [up |-> FALSE, cur |-> 0, tree |-> 0]
 Init == /\ blk = 0 /\ evt = 0 /\ st = [cur |-> 0, applied |-> <<0>>, tree |-> 1]
-        /\ mem = [up |-> TRUE, cur |-> 0, tree |-> 1] /\ pc = "idle" /\ pend = 0 /\ crashes = 0
+        /\ mem = [up |-> TRUE, cur |-> 0, tree |-> 1] /\ pc = "idle" /\ pend = 0 /\ crashes = 0 /\ torn = FALSE
         /\ act = [name |-> "Init"]
 
 \* executeBlock + saveBlockToBlockStore/StateStore/EventStore: batches staged, merkle hash appended in memory and to the file
@@ -48,23 +49,24 @@ SubmitBegin == /\ pc = "idle" /\ mem.up /\ mem.cur < MaxH
                /\ pend' = mem.cur + 1
                /\ mem' = [mem EXCEPT !.tree = @ + 1]
                /\ pc' = "staged" /\ act' = [name |-> "SubmitBegin", h |-> mem.cur + 1]
-               /\ UNCHANGED <<blk, evt, st, crashes>>
+               /\ UNCHANGED <<blk, evt, st, crashes, torn>>
 CommitBlk == /\ pc = "staged" /\ blk' = pend /\ pc' = "blk" /\ act' = [name |-> "CommitBlk", h |-> pend]
-             /\ UNCHANGED <<evt, st, mem, pend, crashes>>
+             /\ UNCHANGED <<evt, st, mem, pend, crashes, torn>>
 CommitEvt == /\ pc = "blk" /\ evt' = pend /\ pc' = "evt" /\ act' = [name |-> "CommitEvt", h |-> pend]
-             /\ UNCHANGED <<blk, st, mem, pend, crashes>>
+             /\ UNCHANGED <<blk, st, mem, pend, crashes, torn>>
 CommitSt == /\ pc = "evt"
             /\ st' = [cur |-> pend, applied |-> Append(st.applied, pend), tree |-> mem.tree]
             /\ pc' = "st" /\ act' = [name |-> "CommitSt", h |-> pend]
-            /\ UNCHANGED <<blk, evt, mem, pend, crashes>>
+            /\ UNCHANGED <<blk, evt, mem, pend, crashes, torn>>
 SetCurrent == /\ pc = "st" /\ mem' = [mem EXCEPT !.cur = pend] /\ pc' = "idle"
               /\ act' = [name |-> "SetCurrent", h |-> pend]
-              /\ UNCHANGED <<blk, evt, st, pend, crashes>>
+              /\ UNCHANGED <<blk, evt, st, pend, crashes, torn>>
 
 \* kill -9 at any point (also inside recovery): memory and staged batches are lost, committed batches stay
+\* The hash file is appended eagerly and never synced with the batches: the image may end in a torn hash.
 Crash == /\ pc \notin {"down", "failed"} /\ crashes < MaxCrash
          /\ crashes' = crashes + 1 /\ pc' = "down" /\ mem' = Down
-         /\ act' = [name |-> "Crash", at |-> pc, h |-> pend]
+         /\ \E t \in BOOLEAN : torn' = t /\ act' = [name |-> "Crash", at |-> pc, h |-> pend, torn |-> t]
          /\ UNCHANGED <<blk, evt, st, pend>>
 
 \* NewLedgerStore + loadCurrentBlock: StateStore.init refuses a merkle tree whose size is not stateHeight+1
@@ -73,25 +75,26 @@ Reopen == /\ pc = "down"
              THEN pc' = "failed" /\ UNCHANGED <<mem, pend>>
              ELSE mem' = [up |-> FALSE, cur |-> blk, tree |-> st.tree] /\ pend' = st.cur /\ pc' = "rec"
           /\ act' = [name |-> "Reopen", ok |-> (st.tree = st.cur + 1)]
+          /\ torn' = FALSE   \* NewFileHashStore seeks to the committed tree size: a torn or longer tail is overwritten
           /\ UNCHANGED <<blk, evt, st, crashes>>
 \* recoverStore loop head: next missing block is re-executed and staged, or the loop ends
 RecStage == /\ pc = "rec" /\ pend < blk
             /\ mem' = [mem EXCEPT !.tree = @ + 1] /\ pc' = "recStaged"
             /\ act' = [name |-> "RecStage", h |-> pend + 1 - RecoverOff]
-            /\ UNCHANGED <<blk, evt, st, pend, crashes>>
+            /\ UNCHANGED <<blk, evt, st, pend, crashes, torn>>
 RecEvt == /\ pc = "recStaged" /\ evt' = pend + 1 - RecoverOff /\ pc' = "recEvt"
           /\ act' = [name |-> "RecEvt", h |-> pend + 1 - RecoverOff]
-          /\ UNCHANGED <<blk, st, mem, pend, crashes>>
+          /\ UNCHANGED <<blk, st, mem, pend, crashes, torn>>
 RecSt == /\ pc = "recEvt"
          /\ LET b == pend + 1 - RecoverOff IN
             st' = [cur |-> b, applied |-> Append(st.applied, b), tree |-> mem.tree]
          /\ pend' = pend + 1 /\ pc' = "rec"
          /\ act' = [name |-> "RecSt", h |-> pend + 1 - RecoverOff]
-         /\ UNCHANGED <<blk, evt, mem, crashes>>
+         /\ UNCHANGED <<blk, evt, mem, crashes, torn>>
 RecDone == /\ pc = "rec" /\ pend >= blk
            /\ mem' = [mem EXCEPT !.up = TRUE] /\ pc' = "idle"
            /\ act' = [name |-> "RecDone"]
-           /\ UNCHANGED <<blk, evt, st, pend, crashes>>
+           /\ UNCHANGED <<blk, evt, st, pend, crashes, torn>>
 
 Next == SubmitBegin \/ CommitBlk \/ CommitEvt \/ CommitSt \/ SetCurrent \/ Crash
         \/ Reopen \/ RecStage \/ RecEvt \/ RecSt \/ RecDone
@@ -111,5 +114,5 @@ Monotone == [][blk' >= blk /\ st'.cur >= st.cur /\ evt' >= evt]_vars
 AtMostOneBehind == st.cur <= blk /\ blk <= st.cur + 1
 NoDoubleApply == \A i, j \in 1..Len(st.applied) : i < j => st.applied[i] < st.applied[j]
 
-State == [blk |-> blk, evt |-> evt, st |-> st, mem |-> mem, pc |-> pc, pend |-> pend, crashes |-> crashes]
+State == [blk |-> blk, evt |-> evt, st |-> st, mem |-> mem, pc |-> pc, pend |-> pend, crashes |-> crashes, torn |-> torn]
 =============================================================================
